@@ -30,6 +30,25 @@ func (fr *frame) call(st *PState, site ssa.Instruction, c *ssa.CallCommon, k0 fu
 		cname = c.Method.Name()
 	} else if f := c.StaticCallee(); f != nil {
 		cname = f.Name()
+	} else {
+		// a call through a function-valued struct field (evm.Context.CanTransfer): known by the field's name
+		fieldOf := func(xt types.Type, i int) string {
+			if p, ok := xt.Underlying().(*types.Pointer); ok {
+				xt = p.Elem()
+			}
+			if stt, ok := xt.Underlying().(*types.Struct); ok && i < stt.NumFields() {
+				return stt.Field(i).Name()
+			}
+			return ""
+		}
+		switch v := c.Value.(type) {
+		case *ssa.Field:
+			cname = fieldOf(v.X.Type(), v.Field)
+		case *ssa.UnOp:
+			if fa, ok := v.X.(*ssa.FieldAddr); ok {
+				cname = fieldOf(fa.X.Type(), fa.Field)
+			}
+		}
 	}
 	k := k0
 	if cname != "" && fr.depth == 0 {
